@@ -128,6 +128,13 @@ def run(c):
                 else:
                     c.violation({"kind": "flush timer returned a shortened result with a nil error (not listed as known)",
                                  "case": known[0]})
+            tch = [l for l in other if l.startswith("KNOWN json-type-change")]
+            cov["known_json_type_change_cases"] = len(tch)
+            if tch:
+                if "C19-json-type-change" in kf:
+                    c.known(kf["C19-json-type-change"])
+                else:
+                    c.violation({"kind": "CollectJSONStream failed on a stream of well-formed JSON objects (not listed as known)", "case": tch[0]})
             byid = {cid: lines for cid, _, lines in allcases}
             for v in viol[:3]:
                 cid = v.split("case=")[1].split()[0] if "case=" in v else ""
